@@ -1,4 +1,7 @@
-//! Native replay of a Kani counterexample: argv = harness name, then one hex string per kani::any() value.
+//! Native replay for C19.
+//!   replay_alloc <harness> <hex>...                       Kani counterexample (values of kani::any() in call order)
+//!   replay_alloc step <limit> <used> <op> <size> <old>    one operation from a reachable state; prints JSON
+//!   replay_alloc stress <op1> <op2> <iters>                two threads hammering one allocator; prints JSON
 #[cfg(not(kani))]
 use std::panic::{catch_unwind, AssertUnwindSafe};
 
@@ -6,8 +9,101 @@ use std::panic::{catch_unwind, AssertUnwindSafe};
 fn main() {}
 
 #[cfg(not(kani))]
+fn usage_of(a: &kani_alloc::AllocT) -> (usize, usize) {
+    // peak first (reading usage resets the peak)
+    let peak = a.get_max();
+    a.reset_max();
+    (a.get_max(), peak)
+}
+
+#[cfg(not(kani))]
 fn main() {
+    use std::alloc::{GlobalAlloc, Layout};
     let args: Vec<String> = std::env::args().collect();
+    if args[1] == "step" {
+        let limit: usize = args[2].parse().unwrap();
+        let used: usize = args[3].parse().unwrap();
+        let op = args[4].as_str();
+        let size: usize = args[5].parse().unwrap();
+        let old: usize = args[6].parse().unwrap();
+        unsafe {
+            let a = kani_alloc::AllocT::new(usize::MAX / 2);
+            // reach the pre-state: `used` bytes live (one block of `old`/`size` to operate on when needed), peak = used
+            let victim = match op {
+                "realloc" => old,
+                "dealloc" => size,
+                _ => 0,
+            };
+            let mut blocks = vec![];
+            if used > victim {
+                blocks.push((a.alloc(Layout::from_size_align(used - victim, 1).unwrap()), used - victim));
+            }
+            let vp = if victim > 0 { a.alloc(Layout::from_size_align(victim, 1).unwrap()) } else { std::ptr::null_mut() };
+            a.set_limit(limit);
+            a.reset_max();
+            let (ok, p2) = match op {
+                "alloc" => {
+                    let p = a.alloc(Layout::from_size_align(size, 1).unwrap());
+                    (!p.is_null(), p)
+                }
+                "alloc_zeroed" => {
+                    let p = a.alloc_zeroed(Layout::from_size_align(size, 1).unwrap());
+                    (!p.is_null(), p)
+                }
+                "realloc" => {
+                    let p = a.realloc(vp, Layout::from_size_align(old, 1).unwrap(), size);
+                    (!p.is_null(), p)
+                }
+                _ => {
+                    a.dealloc(vp, Layout::from_size_align(size, 1).unwrap());
+                    (true, std::ptr::null_mut())
+                }
+            };
+            let _ = p2;
+            let (u2, peak) = usage_of(&a);
+            println!("{{\"outcome\":\"ok\",\"success\":{},\"used_after\":{},\"peak_after\":{}}}", ok, u2, peak);
+        }
+        return;
+    }
+    if args[1] == "stress" {
+        let op1 = args[2].clone();
+        let op2 = args[3].clone();
+        let iters: usize = args[4].parse().unwrap();
+        let a: &'static kani_alloc::AllocT = Box::leak(Box::new(kani_alloc::AllocT::new(1 << 30)));
+        let worker = move |op: String, size: usize| {
+            move || unsafe {
+                let mut bad_peak = 0usize;
+                for _ in 0..iters {
+                    let l = Layout::from_size_align(size, 1).unwrap();
+                    let p = if op == "alloc_zeroed" { a.alloc_zeroed(l) } else { a.alloc(l) };
+                    if p.is_null() {
+                        continue;
+                    }
+                    if a.get_max() < size {
+                        bad_peak += 1;
+                    }
+                    if op == "realloc" {
+                        let q = a.realloc(p, l, size * 2);
+                        if q.is_null() {
+                            a.dealloc(p, l);
+                        } else {
+                            a.dealloc(q, Layout::from_size_align(size * 2, 1).unwrap());
+                        }
+                    } else {
+                        a.dealloc(p, l);
+                    }
+                }
+                bad_peak
+            }
+        };
+        let t1 = std::thread::spawn(worker(op1, 24));
+        let t2 = std::thread::spawn(worker(op2, 40));
+        let b1 = t1.join().unwrap();
+        let b2 = t2.join().unwrap();
+        let (u, peak) = usage_of(a);
+        println!("{{\"outcome\":\"ok\",\"used_at_quiescence\":{},\"peak\":{},\"bad_peak_observations\":{}}}", u, peak, b1 + b2);
+        return;
+    }
     let name = &args[1];
     let vals: Vec<Vec<u8>> = args[2..]
         .iter()
